@@ -1,4 +1,5 @@
 import gfapy
+import math
 import re
 
 class NumericArray(list):
@@ -66,7 +67,14 @@ class NumericArray(list):
     gfapy.ValueError
       If the array is not valid
     """
-    self.compute_subtype()
+    if len(self) == 0:
+      raise gfapy.ValueError("NumericArray is empty")
+    if self.compute_subtype() == "f":
+      for e in self:
+        if not math.isfinite(e):
+          raise gfapy.ValueError(
+            "NumericArray contains a non-finite value\n"+
+            "Content: {}".format(repr(self)))
 
   def compute_subtype(self):
     """
